@@ -24,9 +24,10 @@ TOKEN_STUB = ("LogRefEntry::insertable_reference_string stubbed: records the id,
               "(token text is decided by Engine S and by u_token on concrete ids)")
 TEMP_STUB = "AsyncTempFile::new stubbed: creates the model path 'h' (creation may fail); temp-name formatting not executed"
 UNLINK_STUB = "std::fs::remove_file stubbed: unlink in the model; unlinking the temp file is assumed not to fail"
-PR_STUB = ("process_references replaced by its contract (None iff the stop flag is seen; per-processor result as "
-           "established by u_nextid/u_count/u_insert*/u_insert_reduce; insert pass: tokens on disk <= ids taken <= "
-           "missing, counter = start + ids taken, no wrap)")
+PR_STUB = ("in the driver harnesses process_references is replaced by its contract (None iff the stop flag is seen, which the "
+           "real loop is shown to satisfy by u_pr; per-processor result as established by u_nextid/u_count/u_insert*/"
+           "u_insert_reduce; insert pass: tokens on disk <= ids taken <= missing, counter = start + ids taken, no wrap); "
+           "the lifting from one file (u_insert) to many files is an induction argument, not a solver result")
 FINDER_STUB = "CodeFinder::find stubbed: 0..2 files or failure (walkdir is FFI)"
 LOCK_STUB = ("serde_yaml::to_string and std::fs::write stubbed: lock model records the value written; the lock "
              "write itself is assumed to succeed")
@@ -69,6 +70,17 @@ K_HARNESSES = {
     "u_insert_reduce": dict(
         functions=[GEN + "::InsertReferencesProcessor::reduce"],
         stubs=0, assumptions=[], bound="<= 3 per-file results, counts < 2^40"),
+    "u_load": dict(
+        functions=[GEN + "::load_code"],
+        stubs=0, assumptions=[DESUGAR, FS_MODEL, LOG_NOTE],
+        bound="file of <= NBYTES symbolic ASCII bytes, with or without a UTF-8 byte order mark, readable or not, read failing or not"),
+    "u_pr": dict(
+        functions=[GEN + "::process_references (instantiated with an abstract one-line processor)", GEN + "::load_code",
+                   "src/codegen/finder.rs::CodeFinder::new"],
+        stubs=2, assumptions=[DESUGAR, FS_MODEL, FINDER_STUB, LOG_NOTE,
+                              "find_references stubbed (empty): the parser is Engine S's subject",
+                              "one instantiation of the generic function (abstract processor); the three real instantiations share this body"],
+        bound="2 files, each readable or not, stop flag initially set or set at any operation boundary (before/after each read, during each map)"),
     "d_generate": dict(
         functions=[GEN + "::generate_code", "src/config/context.rs::Context::cache_next_reference_id",
                    "src/codegen/finder.rs::CodeFinder::new"],
@@ -108,17 +120,19 @@ def obligations(prop, tier):
     q = {
         "C01": [K("u_nextid"), K("u_insert"), K("d_generate")],
         "C02": [K("u_insert"), K("d_generate"), K("d_generate_kill")],
-        "C03": [K("u_insert"), K("u_insert_unordered")],
-        "C04": [K("u_count"), K("d_check")],
-        "C05": [K("u_count"), K("u_nextid"), K("u_insert"), K("u_insert_reduce"), K("d_check")],
+        "C03": [K("u_insert"), K("u_insert_unordered"), K("u_load")],
+        "C04": [K("u_count"), K("d_check"), K("u_pr"), K("u_load")],
+        "C05": [K("u_count"), K("u_nextid"), K("u_insert"), K("u_insert_reduce"), K("d_check"), K("u_pr")],
         "C06": [K("d_generate")],
         "C07": [K("u_insert"), K("u_insert_unordered")],
         "C08": [K("u_insert"), K("u_insert_reduce"), K("d_generate")],
         "C16": [K("d_generate"), K("d_check")],
-        "C17": [K("u_nextid"), K("u_count"), K("u_insert"), K("u_insert_reduce"), K("d_generate"), K("d_check")],
-        "C18": [K("d_generate"), K("d_check")],
+        "C17": [K("u_nextid"), K("u_count"), K("u_insert"), K("u_insert_reduce"), K("d_generate"), K("d_check"), K("u_pr"), K("u_load")],
+        "C18": [K("d_generate"), K("d_check"), K("u_pr")],
     }
     obs = list(q.get(prop, []))
+    if prop == "C13":
+        obs = [K("u_insert")]
     if deep:
         extra = {
             "C01": [K("u_nextid", True), K("u_insert", True, 2400, 28)],
@@ -127,9 +141,13 @@ def obligations(prop, tier):
             "C05": [K("u_count", True), K("u_insert", True, 2400, 28)],
             "C07": [K("u_insert", True, 2400, 28), K("u_insert_faults", True, 2400, 28)],
             "C08": [K("u_insert", True, 2400, 28), K("u_insert_faults", True, 2400, 28)],
+            "C13": [K("u_insert", True, 2400, 28)],
             "C17": [K("u_insert", True, 2400, 28)],
         }
         obs += extra.get(prop, [])
+    for o in obs:
+        # only this property's assertions (and the untagged panic/overflow checks) are active
+        o["focus"] = None if prop == "C17" else prop
     try:
         import sprops
         obs += sprops.obligations(prop, tier)
@@ -221,7 +239,8 @@ def absorb_k(out, prop, ob, rec):
 def run_ob(ob):
     if ob["engine"] == "K":
         try:
-            return kengine.run_isolated(ob["harness"], bounds=ob["bounds"], timeout=ob["timeout"], mem_gb=ob["mem_gb"])
+            return kengine.run_isolated(ob["harness"], bounds=ob["bounds"], timeout=ob["timeout"], mem_gb=ob["mem_gb"],
+                                        focus=ob.get("focus"))
         except kengine.Inconclusive as e:
             return {"harness": ob["harness"], "verdict": "ENCODER", "failed": [], "checks": [], "stubs": [],
                     "log_tail": str(e)}
